@@ -21,6 +21,7 @@ type FProfile struct {
 	Fees         bool
 	Remove       bool
 	NoPrelude    bool
+	TwoConsumerPrelude int // percent of cases that start with two consumers set up side by side
 }
 
 func fConfig(maxVals int) func(t *rapid.T) world.Config {
@@ -76,47 +77,67 @@ func genRelay(t *rapid.T, w *world.World, id string) world.Action {
 	return world.Action{Kind: world.KRelay, Consumer: id, Relay: rs}
 }
 
-// prelude schedules the opening scenario of an F-world case: a consumer is created, some validators opt in,
-// it launches, and (mostly) its CCV channel is opened right away; the rest of the history is drawn freely.
-func prelude(t *rapid.T, w *world.World) {
-	spawn := w.Now.UnixNano() + int64(rapid.IntRange(8, 14).Draw(t, "pspawn"))*int64(time.Second)
-	chain := rapid.SampledFrom(ccvOpts.ChainIDs).Draw(t, "pchain")
-	spec := &world.ConsumerSpec{ChainID: chain, Metadata: "p", Init: &world.InitSpec{SpawnTime: spawn, RevNumber: world.RevOf(chain), RevHeight: uint64(rapid.SampledFrom([]int{1, 1, 7}).Draw(t, "prevh")), UnbondingSec: int64(rapid.SampledFrom([]int{1000, 5000}).Draw(t, "pcub")),
-		BlocksPerDistr: int64(rapid.SampledFrom([]int{1, 3, 5}).Draw(t, "pbpd")), Fraction: rapid.SampledFrom([]string{"0.75", "0.5", "0.0", "1.0", "0.333333333333333333"}).Draw(t, "pfrac")}}
-	if rapid.IntRange(0, 3).Draw(t, "pshaping") == 0 {
-		spec.Shaping = w.GenShaping(t, false)
-		spec.Shaping.Allow, spec.Shaping.Deny, spec.Shaping.MinStake = nil, nil, 0
+// prelude schedules the opening scenario of an F-world case: n consumers are created, some validators opt in,
+// they launch, and (mostly) their channels are opened right away and a first packet is delivered; the rest of
+// the history is drawn freely.
+func prelude(t *rapid.T, w *world.World, n int) {
+	owners := []string{"alice", "bob", "carol"}
+	for c := 0; c < n; c++ {
+		spawn := w.Now.UnixNano() + int64(rapid.IntRange(8, 14).Draw(t, "pspawn"))*int64(time.Second)
+		chain := rapid.SampledFrom(ccvOpts.ChainIDs).Draw(t, "pchain")
+		spec := &world.ConsumerSpec{ChainID: chain, Metadata: "p", Init: &world.InitSpec{SpawnTime: spawn, RevNumber: world.RevOf(chain), RevHeight: uint64(rapid.SampledFrom([]int{1, 1, 7}).Draw(t, "prevh")), UnbondingSec: int64(rapid.SampledFrom([]int{1000, 5000}).Draw(t, "pcub")),
+			BlocksPerDistr: int64(rapid.SampledFrom([]int{1, 3, 5}).Draw(t, "pbpd")), Fraction: rapid.SampledFrom([]string{"0.75", "0.5", "0.0", "1.0", "0.333333333333333333"}).Draw(t, "pfrac")}}
+		if rapid.IntRange(0, 3).Draw(t, "pshaping") == 0 {
+			spec.Shaping = w.GenShaping(t, false)
+			spec.Shaping.Allow, spec.Shaping.Deny, spec.Shaping.MinStake = nil, nil, 0
+		}
+		w.Agenda = append(w.Agenda, world.Action{Kind: world.KCreateConsumer, Sender: owners[c%len(owners)], Spec: spec})
 	}
-	w.Agenda = append(w.Agenda, world.Action{Kind: world.KCreateConsumer, Sender: "alice", Spec: spec}, world.Action{Kind: world.KBlock, Dt: 2e9})
+	w.Agenda = append(w.Agenda, world.Action{Kind: world.KBlock, Dt: 2e9})
 	nOpt := rapid.IntRange(2, len(w.ValOrder)).Draw(t, "pnopt")
 	for i := 0; i < nOpt; i++ {
 		v := w.ValOrder[i]
-		a := world.Action{Kind: world.KOptIn, Sender: v, Val: v, Consumer: "0"}
-		if rapid.IntRange(0, 3).Draw(t, "pkey") == 0 {
-			a.Key = "k" + string(rune('0'+i%ccvOpts.KeyPool))
+		var sub []world.Action
+		for c := 0; c < n; c++ {
+			a := world.Action{Kind: world.KOptIn, Val: v, Consumer: string(rune('0' + c))}
+			if rapid.IntRange(0, 3).Draw(t, "pkey") == 0 {
+				a.Key = "k" + string(rune('0'+(i+c)%ccvOpts.KeyPool))
+			}
+			sub = append(sub, a)
 		}
-		w.Agenda = append(w.Agenda, a)
+		if n == 1 {
+			sub[0].Sender = v
+			w.Agenda = append(w.Agenda, sub[0])
+		} else {
+			w.Agenda = append(w.Agenda, world.Action{Kind: world.KMulti, Sender: v, Sub: sub})
+		}
 	}
 	for i := 0; i < 4; i++ {
 		w.Agenda = append(w.Agenda, world.Action{Kind: world.KBlock, Dt: 4e9})
 	}
 	if rapid.IntRange(0, 9).Draw(t, "popen") < 7 {
 		for i := 0; i < 22; i++ {
-			w.Agenda = append(w.Agenda,
-				world.Action{Kind: world.KRelay, Consumer: "0", Relay: &world.RelaySpec{Op: "handshake"}},
-				world.Action{Kind: world.KBlock, Dt: 2e9},
-				world.Action{Kind: world.KBlock, Chain: "0", Dt: 2e9})
+			for c := 0; c < n; c++ {
+				w.Agenda = append(w.Agenda, world.Action{Kind: world.KRelay, Consumer: string(rune('0' + c)), Relay: &world.RelaySpec{Op: "handshake"}})
+			}
+			w.Agenda = append(w.Agenda, world.Action{Kind: world.KBlock, Dt: 2e9})
+			for c := 0; c < n; c++ {
+				w.Agenda = append(w.Agenda, world.Action{Kind: world.KBlock, Chain: string(rune('0' + c)), Dt: 1e9})
+			}
 		}
 		if rapid.IntRange(0, 9).Draw(t, "pestablish") < 8 {
-			// a first validator-set change and its delivery: the consumer adopts the CCV channel
+			// a first validator-set change and its delivery: the consumers adopt their CCV channels
 			w.Agenda = append(w.Agenda, world.Action{Kind: world.KDelegate, Sender: "bob", Val: w.ValOrder[1], Amount: int64(rapid.IntRange(1, 6).Draw(t, "pdel")) * 1_000_000})
 			for i := 0; i < 6; i++ {
 				w.Agenda = append(w.Agenda, world.Action{Kind: world.KBlock, Dt: 2e9})
 			}
-			w.Agenda = append(w.Agenda,
-				world.Action{Kind: world.KRelay, Consumer: "0", Relay: &world.RelaySpec{Op: "recv", Dir: "p2c", K: 3}},
-				world.Action{Kind: world.KBlock, Chain: "0", Dt: 2e9},
-				world.Action{Kind: world.KBlock, Chain: "0", Dt: 2e9})
+			for c := 0; c < n; c++ {
+				id := string(rune('0' + c))
+				w.Agenda = append(w.Agenda,
+					world.Action{Kind: world.KRelay, Consumer: id, Relay: &world.RelaySpec{Op: "recv", Dir: "p2c", K: 3}},
+					world.Action{Kind: world.KBlock, Chain: id, Dt: 2e9},
+					world.Action{Kind: world.KBlock, Chain: id, Dt: 2e9})
+			}
 		}
 	}
 }
@@ -142,7 +163,11 @@ func fStep(prof FProfile) func(t *rapid.T, w *world.World) world.Action {
 	return func(t *rapid.T, w *world.World) world.Action {
 		f := w.F()
 		if len(w.Trace) <= 1 && len(w.Agenda) == 0 && !prof.NoPrelude {
-			prelude(t, w)
+			n := 1
+			if prof.TwoConsumerPrelude > 0 && rapid.IntRange(0, 99).Draw(t, "prelude2") < prof.TwoConsumerPrelude {
+				n = 2
+			}
+			prelude(t, w, n)
 		}
 		if len(w.Agenda) > 0 {
 			a := w.Agenda[0]
